@@ -25,6 +25,7 @@
 #include <stdlib.h>
 #include <string.h>
 #include <inttypes.h>
+#include <stdbool.h>
 #include "jls/backend.h"
 
 
@@ -307,6 +308,37 @@ int32_t jls_raw_rd(struct jls_raw_s * self, struct jls_chunk_header_s * hdr, uin
     return 0;
 }
 
+/**
+ * @brief Check for a header left by an interrupted link update.
+ *
+ * The writer links a new chunk by rewriting the header of the previous chunk
+ * in its list: item_next changes from 0 to the new offset and crc32 follows.
+ * A writer that stops inside this 32-byte write leaves a prefix of the new
+ * header over the old one.  Every other field is unchanged and still covered
+ * by the old CRC, so the chunk itself is intact.
+ *
+ * @param h The header as read, which is updated to a consistent header on success.
+ * @return true if h is such a header, false otherwise.
+ */
+static bool hdr_is_torn_link(struct jls_chunk_header_s * h) {
+    struct jls_chunk_header_s h_old = *h;
+    h_old.item_next = 0;
+    uint32_t crc_old = jls_crc32c_hdr(&h_old);
+    if (crc_old == h->crc32) {
+        h->item_next = 0;  // crc32 not yet rewritten: item_next may be partial
+        return true;
+    }
+    uint32_t crc_new = jls_crc32c_hdr(h);
+    for (unsigned int k = 1; k < sizeof(uint32_t); ++k) {  // crc32 partially rewritten (little endian)
+        uint32_t mask = (1U << (8 * k)) - 1;
+        if (((crc_new & mask) | (crc_old & ~mask)) == h->crc32) {
+            h->crc32 = crc_new;
+            return true;
+        }
+    }
+    return false;
+}
+
 int32_t jls_raw_rd_header(struct jls_raw_s * self, struct jls_chunk_header_s * hdr) {
     struct jls_chunk_header_s * h = &self->hdr;
     if (hdr) {
@@ -331,7 +363,7 @@ int32_t jls_raw_rd_header(struct jls_raw_s * self, struct jls_chunk_header_s * h
             return JLS_ERROR_EMPTY;
         }
         uint32_t crc32 = jls_crc32c_hdr(h);
-        if (crc32 != h->crc32) {
+        if ((crc32 != h->crc32) && !hdr_is_torn_link(h)) {
             JLS_LOGW("chunk header fpos=%" PRIi64 " crc error: %u != %u",
                      self->backend.fpos, crc32, h->crc32);
             invalidate_current_chunk(self);
